@@ -462,5 +462,46 @@ def r03_7(ctx):
     return r
 
 
+def r03_8(ctx):
+    """'any plaintext record from any source is discarded without changing connection state': a ChangeCipherSpec travels in
+    the clear, so its arm in handle_decrypted_record runs for anybody's datagram at any time. It used to increment
+    ctx.read_epoch on every such record - unobservable only as long as nothing reads read_epoch (a later 'hardening' that
+    compares a record's epoch with it turns one forged 14-byte datagram into a permanent black hole for the genuine
+    peer's records). Decided: every write to read_epoch is a constant store on the `read_epoch == 0` edge (the one epoch
+    change of a handshake without renegotiation), so a repeated or forged ChangeCipherSpec changes nothing."""
+    r = RuleResult("R03.8", "K1", "an unauthenticated ChangeCipherSpec moves the read epoch at most once")
+    n = 0
+    for b in ctx.facts.bodies(prefix="transports::dtls::"):
+        if "::tests::" in b.name or "security_tests" in b.name:
+            continue
+        ws = [w for w in core.field_writes(b, lambda f: f == "read_epoch", deep=True) if w[1] is not None]
+        # initialisation inside a struct literal is not a field write; only real stores count
+        if not ws:
+            continue
+        r.scope.append(b.name)
+
+        def first_time(term, meaning, *_):
+            t, neg = term, False
+            while t[0] == "un" and t[1] == "Not":
+                t, neg = t[2], not neg
+            if t[0] == "bin" and t[1] in ("Eq", "Ne") and isinstance(meaning, bool) and mir.has_field(t, "read_epoch") and \
+                    any(mir.int_value(x) == 0 for x in (t[2], t[3])):
+                return (meaning != neg) is (t[1] == "Eq")
+            return False
+        g = core.guard_edges(b, first_time)
+        for bi, si, st in ws:
+            n += 1
+            v = b.term_rvalue(st["rv"])
+            const = isinstance(mir.int_value(v), int)
+            if const and g and core.k1(b, [bi], g)[bi] is None:
+                r.ok({"site": b.where(bi, si), "read_epoch := ": mir.show(v), "only when": "read_epoch == 0"})
+            else:
+                r.violate(b.name, "write:read_epoch", b.where(bi, si),
+                          "read_epoch is %s here for every ChangeCipherSpec record, authenticated or not: a forged plaintext datagram changes "
+                          "connection state after the handshake" % ("set" if const else "advanced (" + mir.show(v, 50) + ")"))
+    r.need("stores to read_epoch", n, 1)
+    return r
+
+
 def run(ctx):
-    return [r03_1(ctx), r03_2(ctx), r03_3(ctx), r03_4(ctx), r03_5(ctx), r03_6(ctx), r03_7(ctx)]
+    return [r03_1(ctx), r03_2(ctx), r03_3(ctx), r03_4(ctx), r03_5(ctx), r03_6(ctx), r03_7(ctx), r03_8(ctx)]
